@@ -75,6 +75,16 @@ def read_hits():
     return h
 
 
+ext = None
+if prog.get("ext_kill"):
+    # an idle worker is killed from outside (kill -9, OOM killer): nothing of loky runs in it at that moment
+    pids = sorted(ex._processes)
+    if pids:
+        ext = pids[prog["ext_kill"]["which"] % len(pids)]
+        try:
+            os.kill(ext, prog["ext_kill"]["sig"])
+        except OSError:
+            ext = None
 hits_before_probe = read_hits()
 time.sleep(1.0)       # a death that has happened by now is detected long before the probe is submitted
 broken_before_probe = type(ex._flags.broken).__name__ if ex._flags.broken else None
@@ -84,7 +94,7 @@ try:
 except BaseException as e:
     probe = ["submit_raised", type(e).__name__, [c.__name__ for c in type(e).__mro__]]
 hits = read_hits()
-emit(workers=workers, outcomes=outs, probe=probe, stuck=stuck, hits=hits, hits_before_probe=hits_before_probe, broken=type(ex._flags.broken).__name__ if ex._flags.broken else None)
+emit(workers=workers, outcomes=outs, probe=probe, stuck=stuck, hits=hits, hits_before_probe=hits_before_probe, ext_killed=ext, broken=type(ex._flags.broken).__name__ if ex._flags.broken else None)
 t0 = time.time()
 import threading
 done = threading.Event()
